@@ -65,6 +65,9 @@ pub struct Val {
 
 pub const SIZES: &[usize] = &[1, 17, 4096, 8193, 70_000];
 
+/// writer id reserved for zero-byte values (see `Val::encode`)
+pub const EMPTY_WRITER: u32 = 0xE0E0;
+
 impl Val {
     pub fn new(key: &str, writer: u32, seq: u32, len: usize) -> Val {
         Val { key: key.to_string(), writer, seq, len }
@@ -73,6 +76,11 @@ impl Val {
         format!("key={};writer={};seq={};len={};", self.key, self.writer, self.seq, self.len)
     }
     pub fn encode(&self) -> Vec<u8> {
+        if self.writer == EMPTY_WRITER && self.len == 0 {
+            // a legitimately EMPTY value (zero bytes): it carries no identity, the checks that use it
+            // compare sizes and inodes instead
+            return Vec::new();
+        }
         let mut out = self.header().into_bytes();
         let mut r = Rng::new(fnv(&out));
         let mut i = 0;
